@@ -66,7 +66,8 @@ def case_strategy(draw):
     nreq = len(required_pairs(cols, pairwise, heuristic))   # size with the default label; only used to scale the cap
     cap = draw(st.one_of(st.integers(1, nreq + len(cols) + 5), st.sampled_from([2**15, 10**4 + 1, 10**5])))
     return {'cols': cols, 'nrows': nrows, 'seed': seed, 'pairwise': pairwise, 'heuristic': heuristic, 'cap': cap,
-            'batches': draw(st.sampled_from([1, 1, 2, 3])), 'labels': labels}
+            'batches': draw(st.sampled_from([1, 1, 2, 3])), 'labels': labels,
+            'ncpus': draw(st.sampled_from([1, 1, 2, 3, 4, 7, 16])), 'grow': draw(st.sampled_from([0, 0, 1, 3]))}
 
 
 def upair(a, b):
@@ -103,13 +104,17 @@ def oracle(case, rec):
     req0 = required_pairs(cols, pairwise, h, labels[0])
     rec.nt(len(cols) >= 3 and (eff_cap < len(req0) or pairwise or '3mr' in h), key=case)
     rec.cls('h=' + h, 'pairwise' if pairwise else 'target-only', 'capped' if eff_cap < len(req0) else 'uncapped',
-            'batches=%d' % nb, 'labels=%d' % len(labels))
+            'batches=%d' % nb, 'labels=%d' % len(labels), 'ncpus=%d' % int(case.get('ncpus', 1)),
+            'grows' if case.get('grow') and nb > 1 else 'same-width')
     if any(' AND_REL ' in c for c in cols):
         rec.cls('has-relation-feature')
     if any('AND_REL' in c and ' AND_REL ' not in c for c in cols):
         rec.cls('has-lookalike-of-relation-name')
     colset = set(cols)
+    cols0, df0 = list(cols), df
+    grow = int(case.get('grow', 0)) if cap > 10**4 or True else 0
     for li, label in enumerate(labels):
+        cols, df, colset = list(cols0), df0, set(cols0)
         # a later ranking of the same columns against another label column must not be influenced by the earlier one
         args = stubs.make_args(heuristic=h, target_ranking_only='False' if pairwise else 'True',
                                combination_number_upper_bound=cap, label_column=label)
@@ -117,7 +122,17 @@ def oracle(case, rec):
         allowed = allowed_pairs(cols, pairwise, h, label)
         dups = len([c for c in cols if c != label]) if pairwise else 0
         for bi in range(nb):
-            out = mixed_rank_graph(df, args, stubs.InlinePool(), stubs.PBar()).triplet_scores
+            if bi == 1 and grow:
+                # a later batch of the same run may be wider (value-dependent constructed columns): same args object, more pairs
+                extra = [f'grown{j}' for j in range(grow)]
+                df = pd.concat([df0, pd.DataFrame({c: [str(int(v)) for v in rng.integers(0, 3, size=case['nrows'])] for c in extra})],
+                               axis=1)
+                cols = cols0 + extra
+                colset = set(cols)
+                req = required_pairs(cols, pairwise, h, label)
+                allowed = allowed_pairs(cols, pairwise, h, label)
+                dups = len([c for c in cols if c != label]) if pairwise else 0
+            out = mixed_rank_graph(df, args, stubs.InlinePool(ncpus=int(case.get('ncpus', 1))), stubs.PBar()).triplet_scores
             where = f'label {label!r} (#{li + 1} of {len(labels)}), batch {bi + 1} of {nb}: '
             for a, b, s in out:
                 if a not in colset or b not in colset:
